@@ -22,7 +22,23 @@ class ResponseModel:
         self.file = self.rp.file
         same = lambda d: facts.fns[d].rec.get("local") and facts.fns[d].file == self.file
         # the coding chooser: the function of this file returning TransferEncoding that raw_print reaches
-        ch = [k for k, g in facts.local_fns.items() if g.file == self.file and g.locals[0]["ty"] == TE and g.rec["def_kind"] == "Fn"]
+        ch = [k for k, g in facts.local_fns.items() if g.file == self.file and g.locals[0]["ty"] == TE and g.rec["def_kind"] in ("Fn", "AssocFn") and "{closure" not in k
+              and g.rec.get("impl_trait") is None and g.rec.get("impl_self_adt") not in (RESP, TE)]
+        if len(ch) > 1:
+            # the decision split over several functions (the default rule, the client's preference ...): the chooser is the one the others
+            # are reached from
+            def reach_(k, seen=()):
+                out = set()
+                bodies = [k] + [c for c in facts.local_fns if c.startswith(k + "::{closure")]
+                for b_ in bodies:
+                    for bb, t in facts.fns[b_].calls():
+                        c = call_name(t)
+                        if c in facts.local_fns and c not in seen and facts.fns[c].file == self.file:
+                            out |= {c} | reach_(c, seen + (k, c))
+                return out
+            roots = [k for k in ch if not any(k in reach_(o) for o in ch if o != k)]
+            if len(roots) == 1:
+                ch = roots
         if len(ch) != 1:
             raise CheckerError("response rules: transfer-coding chooser not found (%s)" % ch)
         self.chooser = facts.fn(ch[0])
